@@ -943,3 +943,73 @@ package mast
 //@ ensures readonly [C06 C12] (NodesSame H0 H W0)
 //@ loop 1 invariant cfg (and (> dc 0) (> (DiffCursor.diffState H dc) 0) (DiffCfg H (DiffCursor.m H dc) (DiffCursor.diffState H dc)) (DiffGlobalsOK H) (NodesSame H0 H W0))
 //@ loop 1 invariant stacks [T3] (and (StackOK H (oStack (DiffCursor.diffState H dc))) (StackOK H (nStack (DiffCursor.diffState H dc))) (AllOK H))
+
+// ---------------------------------------------------------------------------------------
+// Node encoding (C05, C08, C14): the v1.1.5binary layout as spec functions.
+//   uv k            : the unsigned-varint encoding of k (A2: encoding/binary)
+//   elemEnc x       : uv(len(msh x)) ++ msh x                 one length-prefixed element
+//   encElems h s k  : the first k elements of slice s, each as elemEnc
+//   encList h s     : uv(len s) ++ encElems h s (len s)
+//@ assumption A2-binary: binary.PutUvarint writes uv(x) (at most 8 bytes for x < 2^56) and binary.Uvarint reads it back (uvVal/uvLen of a buffer that starts with uv(k) are k and len(uv k)); a failed Uvarint returns n <= 0
+//@ assumption A1-marshal: the marshal callback is a pure deterministic function msh of its argument when it returns no error
+//@ smt (declare-fun msh (Any) Bytes)
+//@ smt (declare-fun uvVal (Bytes) Int)
+//@ smt (declare-fun uvLen (Bytes) Int)
+//@ smt (define-fun elemEnc ((x Any)) Bytes (cat (uv (blen (msh x))) (msh x)))
+//@ smt (declare-fun encElems (Heap Slice Int) Bytes)
+//@ smt (declare-fun encstep (Heap Slice Int) Bool)
+//@ theory enc
+//@ smt (assert (forall ((k Int)) (! (and (>= (blen (uv k)) 1) (<= (blen (uv k)) 10) (=> (and (<= 0 k) (< k 72057594037927936)) (<= (blen (uv k)) 8))) :pattern ((uv k)))))
+//@ smt (assert (forall ((h Heap) (s Slice)) (! (= (encElems h s 0) eps) :pattern ((encElems h s 0)))))
+//@ smt (assert (forall ((h Heap) (s Slice) (k Int)) (! (encstep h s k) :pattern ((encstep h s k)))))
+//@ smt (assert (forall ((h Heap) (s Slice) (k Int)) (! (=> (>= k 0) (= (encElems h s (+ k 1)) (cat (encElems h s k) (elemEnc (elemAt h s k))))) :pattern ((encstep h s k)))))
+//@ smt (assert (forall ((h1 Heap) (h2 Heap) (s Slice) (k Int)) (! (=> (= (h.Arr.Any h1) (h.Arr.Any h2)) (= (encElems h1 s k) (encElems h2 s k))) :pattern ((encElems h1 s k) (encElems h2 s k)))))
+//@ endtheory
+//@ smt (define-fun encList ((h Heap) (s Slice)) Bytes (cat (uv (sl.len s)) (encElems h s (sl.len s))))
+
+//@ func appendLength
+//@ tags C05 C08 C14
+//@ uses bytes enc
+//@ modifies W Box.Bytes@fresh
+//@ requires range [C14] (and (<= 0 n) (< n 72057594037927936))
+//@ ensures def [C05 C08 C14] (= (bs.val result) (cat (bs.val buf) (uv n)))
+
+//@ abstract param:appendEfaceSlice.marshal (x) -> (b err)
+//@ pure
+//@ ensures det (=> (= err anil) (= (bs.val b) (msh x)))
+//@ ensures healthy (=> healthy (= err anil))
+
+//@ func appendEfaceSlice
+//@ tags C05 C08 C14
+//@ uses bytes enc
+//@ modifies W Box.Bytes@fresh
+//@ requires fn (not (= marshal 0))
+//@ ensures def [C05 C08 C14] (=> (= err anil) (= (bs.val result0) (cat (bs.val buf) (encList H0 l))))
+//@ ensures healthy [C01] (=> healthy (= err anil))
+//@ loop 1 invariant acc [C05 C08 C14] (and (<= (- 1) rangeindex) (<= (+ rangeindex 1) (sl.len l)) (encstep H0 l (+ rangeindex 1)) (= (bs.val buf') (cat (bs.val buf) (cat (uv (sl.len l)) (encElems H0 l (+ rangeindex 1))))))
+
+//   linkEnc x       : uv(len name) ++ name, with the empty name for a nil link
+//   encLinks h s k  : the first k links of slice s, each as linkEnc
+//   EncNode h r     : encList(Key) ++ encList(Value) ++ uv(#links) ++ encLinks(Link)   (the v1.1.5binary node)
+//@ smt (define-fun linkStr ((x Any)) Bytes (ite (isNil x) eps (nameOf x)))
+//@ smt (define-fun linkEnc ((x Any)) Bytes (cat (uv (blen (linkStr x))) (linkStr x)))
+//@ smt (declare-fun encLinks (Heap Slice Int) Bytes)
+//@ smt (declare-fun lnkstep (Heap Slice Int) Bool)
+//@ theory enc
+//@ smt (assert (forall ((h Heap) (s Slice)) (! (= (encLinks h s 0) eps) :pattern ((encLinks h s 0)))))
+//@ smt (assert (forall ((h Heap) (s Slice) (k Int)) (! (lnkstep h s k) :pattern ((lnkstep h s k)))))
+//@ smt (assert (forall ((h Heap) (s Slice) (k Int)) (! (=> (>= k 0) (= (encLinks h s (+ k 1)) (cat (encLinks h s k) (linkEnc (elemAt h s k))))) :pattern ((lnkstep h s k)))))
+//@ smt (assert (forall ((h1 Heap) (h2 Heap) (s Slice) (k Int)) (! (=> (= (h.Arr.Any h1) (h.Arr.Any h2)) (= (encLinks h1 s k) (encLinks h2 s k))) :pattern ((encLinks h1 s k) (encLinks h2 s k)))))
+//@ endtheory
+//@ smt (define-fun EncNodeParts ((h Heap) (ks Slice) (vs Slice) (ls Slice)) Bytes (cat (encList h ks) (cat (encList h vs) (cat (uv (sl.len ls)) (encLinks h ls (sl.len ls))))))
+//@ smt (define-fun EncNode ((h Heap) (r Int)) Bytes (EncNodeParts h (Node.Key h r) (Node.Value h r) (Node.Link h r)))
+
+//@ func marshalMastNode
+//@ tags C05 C08 C14
+//@ uses bytes enc
+//@ modifies W Box.Bytes@fresh
+//@ requires nn (and (> node 0) (not (= marshal 0)))
+//@ requires names [C08] (forall ((i Int)) (! (=> (and (<= 0 i) (< i (nlinks H node))) (or (isNil (LinkAt H node i)) (isName (LinkAt H node i)))) :pattern ((LinkAt H node i))))
+//@ ensures def [C05 C08 C14] (=> (= err anil) (= (bs.val result0) (EncNode H0 node)))
+//@ ensures healthy [C01] (=> healthy (= err anil))
+//@ loop 1 invariant acc [C05 C08 C14] (and (<= (- 1) rangeindex) (<= (+ rangeindex 1) (nlinks H0 node)) (lnkstep H0 (Node.Link H0 node) (+ rangeindex 1)) (= err anil) (= (bs.val buf) (cat (cat (cat (cat eps (encList H0 (Node.Key H0 node))) (encList H0 (Node.Value H0 node))) (uv (nlinks H0 node))) (encLinks H0 (Node.Link H0 node) (+ rangeindex 1)))))
